@@ -77,7 +77,7 @@ func newCtx(id, level string, sharded bool) *Ctx {
 		if t == "quick" {
 			b = 4 * time.Minute
 		} else {
-			b = 40 * time.Minute
+			b = 25 * time.Minute
 		}
 	}
 	c.deadline = c.start.Add(b)
